@@ -377,7 +377,13 @@ OnPost(int tid, const vs::Op &op, uint64_t observed, uint64_t written, bool wrot
     tm.req.arrival = ++GH->arrivals;
   }
 #endif
-  if (eff) {
+#if LK == 2
+  const bool on_release_target = true;  // MCS releases act on the lock word or on a queue node
+#else
+  // single-word locks: a grant ends only by a write to the word of *its* lock
+  const bool on_release_target = l >= 0 && ((tm.pend_end >= 0 && GH->phases[tm.pend_end].lock == l) || (tm.pend_down >= 0 && GH->phases[tm.pend_down].lock == l));
+#endif
+  if (eff && on_release_target) {
     if (tm.pend_end >= 0) {
       EndPhaseNow(tid, tm.pend_end);
       tm.pend_end = -1;
